@@ -255,11 +255,20 @@ def print_assumptions(props_rel, tag):
     for n in names:
         lines.append('Goal True. idtac "@@THM %s". exact I. Qed.' % n)
         lines.append('Print Assumptions %s.' % n)
-    path = os.path.join(CASES, 'assumptions_%s.v' % tag)
+    path = os.path.join(CASES, 'assumptions_%s_%d.v' % (tag, os.getpid()))
     os.makedirs(CASES, exist_ok=True)
     with open(path, 'w') as f:
         f.write('\n'.join(lines) + '\n')
     rc, out = coqc_file(path)
+    for ext in ('.v', '.vo', '.vok', '.vos', '.glob'):
+        try:
+            os.remove(path[:-2] + ext)
+        except OSError:
+            pass
+    try:
+        os.remove(os.path.join(CASES, '.' + os.path.basename(path)[:-2] + '.aux'))
+    except OSError:
+        pass
     res = {}
     if rc != 0:
         return None, out
@@ -296,25 +305,26 @@ def run_case_files(files, timeout=900):
     os.makedirs(CASES, exist_ok=True)
     paths = []
     for name, text in files:
-        p = os.path.join(CASES, name + '.v')
+        disk = '%s_p%d' % (name, os.getpid())      # several checks (even of one property) may run at once
+        p = os.path.join(CASES, disk + '.v')
         with open(p, 'w') as f:
             f.write(text)
-        paths.append((name, p))
+        paths.append((name, disk, p))
 
     def one(np):
-        name, p = np
+        name, disk, p = np
         rc, out = coqc_file(p, timeout)
         return name, rc, out
     with ThreadPoolExecutor(max_workers=NPROC) as ex:
         res = list(ex.map(one, paths))
-    for name, p in paths:
-        for ext in ('.vo', '.vok', '.vos', '.glob'):
+    for name, disk, p in paths:
+        for ext in ('.vo', '.vok', '.vos', '.glob', '.v'):
             try:
                 os.remove(p[:-2] + ext)
             except OSError:
                 pass
         try:
-            os.remove(os.path.join(os.path.dirname(p), '.' + name + '.aux'))
+            os.remove(os.path.join(os.path.dirname(p), '.' + disk + '.aux'))
         except OSError:
             pass
     return res
